@@ -187,4 +187,42 @@ theorem splitOn_no_sep (d : Nat) (s : Bytes) : ∀ p ∈ splitOn d s, d ∉ p :=
         · subst hp; simp; exact ⟨fun h => hne h.symm, ih x (by simp)⟩
         · exact ih p (by simp [hp])
 
+/-! ### the server derived by `#[conjure_endpoints]` from the same declaration -/
+
+/-- `query_param(&query_params, KEY, ..)`: the values the parsed query holds under the key, in order of appearance
+(`parse_query_params` groups the pairs by decoded key) -/
+def serverQueryValues (pairs : List (Bytes × Bytes)) (k : Bytes) : List Bytes :=
+  (pairs.filter (fun p => p.1 == k)).map (·.2)
+
+theorem serverQueryValues_flatMap (vals : Nat → List Bytes) : ∀ (qas : List MArg) (a : MArg), a ∈ qas →
+    (qas.map (·.name)).Nodup →
+    serverQueryValues (qas.flatMap (fun b => (vals b.slot).map (fun v => (b.name, v)))) a.name = vals a.slot
+  | [], a, h, _ => by cases h
+  | b :: rest, a, h, hn => by
+    simp only [List.map_cons, List.nodup_cons] at hn
+    simp only [serverQueryValues, List.flatMap_cons, List.filter_append, List.map_append]
+    rcases List.mem_cons.mp h with rfl | hr
+    · -- the pairs of `a` itself all pass; no later argument has its name
+      have h1 : ((vals a.slot).map (fun v => (a.name, v))).filter (fun p => p.1 == a.name) =
+          (vals a.slot).map (fun v => (a.name, v)) := by
+        apply List.filter_eq_self.mpr; intro p hp; simp only [List.mem_map] at hp; obtain ⟨v, _, rfl⟩ := hp; simp
+      have h2 : (rest.flatMap (fun b => (vals b.slot).map (fun v => (b.name, v)))).filter (fun p => p.1 == a.name) = [] := by
+        apply List.filter_eq_nil_iff.mpr
+        intro p hp
+        simp only [List.mem_flatMap, List.mem_map] at hp
+        obtain ⟨c, hc, v, _, rfl⟩ := hp
+        simp only [beq_iff_eq]
+        intro he
+        exact hn.1 (by rw [← he]; exact List.mem_map_of_mem hc)
+      rw [h1, h2]; simp [List.map_map, Function.comp_def]
+    · have hne : b.name ≠ a.name := by
+        intro he; exact hn.1 (by rw [he]; exact List.mem_map_of_mem hr)
+      have h1 : ((vals b.slot).map (fun v => (b.name, v))).filter (fun p => p.1 == a.name) = [] := by
+        apply List.filter_eq_nil_iff.mpr; intro p hp; simp only [List.mem_map] at hp; obtain ⟨v, _, rfl⟩ := hp
+        simpa using hne
+      rw [h1]
+      have := serverQueryValues_flatMap vals rest a hr hn.2
+      simpa [serverQueryValues] using this
+
 end ConjureVerif.MacroEmit
+
